@@ -68,6 +68,7 @@ def specs(tier):
         out.append(("fields", LEAVES[l][0], (l,)))
         out.append(("addition", LEAVES[l][0], (l,)))
         out.append(("varargs", LEAVES[l][0], (l,)))
+        out.append(("props", LEAVES[l][0], (l,)))
     return out
 
 
@@ -132,6 +133,8 @@ def run_shard(shard, tier):
         _addition(acc, ann, meta, cache)
     elif kind == "varargs":
         _varargs(acc, ann, meta, maxlen, cache)
+    elif kind == "props":
+        _props(acc, ann, meta, cache)
     return acc
 
 
@@ -468,16 +471,24 @@ def _addition(acc, ann, meta, cache):
     lexpr, values = LEAVES[leaf]
     o0 = opts()
     for base in ("Schema", "DataClass"):
-        for cpol in POLICIES:
+        # rpol: the policy of the options the data is parsed with (__from__(..., options=...)); it is the one in effect
+        for cpol, rpol in [(c, None) for c in POLICIES] + [(c, r) for c in POLICIES for r in POLICIES if r != c]:
             src = f"class S({base}):\n    __options__ = Options(addition=T({lexpr}), invalid_values={cpol!r})\n    a: int = 0\n"
             env = _class(src)
             for combo in seq_inputs(values, 2):
                 items = list(zip(["x1", "x2"], combo))
                 xexpr = "S(" + ", ".join(f"{k}={v}" for k, v in [("a", "1")] + items) + ")"
+                if rpol:
+                    xexpr = ("S.__from__(dict(" + ", ".join(f"{k}={v}" for k, v in [("a", "1")] + items) +
+                             f"), options=Options(addition=True, invalid_values={rpol!r}))")
                 acc.states += 1
                 acc.transitions += 1 + len(items)
                 try:
-                    inst = env["S"](a=1, **{k: ev(v) for k, v in items})
+                    if rpol:
+                        inst = env["S"].__from__(dict(a=1, **{k: ev(v) for k, v in items}),
+                                                 options=env["Options"](addition=True, invalid_values=rpol))
+                    else:
+                        inst = env["S"](a=1, **{k: ev(v) for k, v in items})
                     st = "ok"
                 except uexc.ParseError as e:
                     st, inst = "err", e
@@ -489,14 +500,18 @@ def _addition(acc, ann, meta, cache):
                 bad = [k for k, r in res.items() if not r[0]]
                 if bad:
                     acc.nontrivial_add((src, xexpr))
-                tag = f"invalid_values={cpol}"
+                tag = f"invalid_values={cpol}" + (f",runtime={rpol}" if rpol else "")
+                declared, cpol = cpol, (rpol or cpol)
                 if st == "other":
                     _viol(acc, "exception-" + type(inst).__name__, ann, tag, xexpr, f"raised {type(inst).__name__}", base)
+                    cpol = declared
                     continue
                 if (st == "err") != (bool(bad) and cpol == "throw"):
                     _viol(acc, "addition-verdict", ann, tag, xexpr, f"{'rejected' if st == 'err' else 'accepted'} with offending extra keys {bad}", base)
+                    cpol = declared
                     continue
                 if st == "err":
+                    cpol = declared
                     continue
                 got = dict(inst) if isinstance(inst, dict) else {k: v for k, v in inst.__dict__.items() if not k.startswith("__")}
                 want = {"a": 1}
@@ -507,6 +522,63 @@ def _addition(acc, ann, meta, cache):
                         want[k] = ev(v)
                 if canon(got) != canon(want):
                     _viol(acc, "addition-result", ann, tag, xexpr, f"instance holds {short(got, 80)}, expected {short(want, 80)}", base)
+                cpol = declared
+
+
+def _props(acc, ann, meta, cache):
+    """a typed property: the getter's Field(on_error=...) or the policy in effect decides what happens to an invalid
+    computed value; the field it is computed from is never touched"""
+    (leaf,) = meta
+    lexpr, values = LEAVES[leaf]
+    o0 = opts()
+    for gpol in (None, "exclude", "preserve", "throw"):
+        for cpol in POLICIES:
+            deco = f"    @Field(on_error={gpol!r})\n" if gpol else ""
+            src = (f"class S(Schema):\n    __options__ = Options(invalid_values={cpol!r})\n    a: Any = None\n"
+                   f"    @property\n{deco}    def p(self) -> {lexpr}:\n        return self.a\n")
+            try:
+                env = _class(src)
+            except Exception:
+                acc.extra["declarations_rejected_at_build"] += 1
+                continue
+            eff = gpol or cpol
+            for vx in values:
+                acc.states += 1
+                acc.transitions += 2
+                ok, conv = alone(lexpr, vx, o0, cache)
+                try:
+                    inst = env["S"](a=ev(vx))
+                    st = "ok"
+                except uexc.ParseError as e:
+                    st, inst = "err", e
+                except Exception as e:
+                    st, inst = "other", e
+                acc.evaluations += 1
+                acc.outcomes[f"props:{st}"] += 1
+                tag = f"getter-on_error={gpol},invalid_values={cpol}"
+                xexpr = f"S(a={vx})"
+                if not ok:
+                    acc.nontrivial_add((src, xexpr))
+                if st == "other":
+                    _viol(acc, "exception-" + type(inst).__name__, ann, tag, xexpr, f"raised {type(inst).__name__}: {short(inst, 80)}", "Schema-property")
+                    continue
+                if (st == "err") != ((not ok) and eff == "throw"):
+                    _viol(acc, "property-verdict", ann, tag, xexpr, f"{'rejected' if st == 'err' else 'accepted'}: the computed value "
+                          f"{'offends' if not ok else 'is valid'} and the policy in effect is {eff}", "Schema-property")
+                    continue
+                if st == "err":
+                    continue
+                got = dict(inst)
+                if canon(got.get("a", "<absent>")) != canon(ev(vx)):
+                    _viol(acc, "other-field-touched", ann, tag, xexpr, f"field a is {got.get('a', '<absent>')!r}", "Schema-property")
+                if ok:
+                    good = "p" in got and canon(got["p"]) == canon(conv)
+                elif eff == "preserve":
+                    good = "p" in got and canon(got["p"]) == canon(ev(vx))
+                else:
+                    good = "p" not in got
+                if not good:
+                    _viol(acc, "property-result", ann, tag, xexpr, f"property p is {got.get('p', '<absent>')!r}", "Schema-property")
 
 
 def _varargs(acc, ann, meta, maxlen, cache):
